@@ -4,3 +4,9 @@ pub assume_specification [String::len] (s: &String) -> (r: usize)
 pub assume_specification [String::as_bytes] (s: &String) -> (r: &[u8])
     ensures r@ == vstd::utf8::encode_utf8(s@);
 
+// a String value is determined by its text (spec equality is extensional on the view)
+#[verifier::external_body]
+pub proof fn fact_string_ext()
+    ensures forall|a: String, b: String| #![trigger a@, b@] a@ == b@ ==> a == b,
+            vstd::std_specs::hash::obeys_key_model::<String>(),
+{}
